@@ -70,7 +70,7 @@ class SqliteDLQMixin:
                 attempts, error, last_error_at, created_at
             ) VALUES (
                 :original_id, :message_id, :message_type, :payload,
-                :attempts, :error, datetime('now', 'utc'), :created_at
+                :attempts, :error, datetime('now'), :created_at
             )
             """,
             {
@@ -160,7 +160,7 @@ class SqliteDLQMixin:
             INSERT INTO {self.table_name} (
                 message_id, message_type, payload, deliver_at, attempts
             ) VALUES (
-                :message_id, :message_type, :payload, datetime('now', 'utc'), 0
+                :message_id, :message_type, :payload, datetime('now'), 0
             )
             """,
             {
